@@ -448,7 +448,8 @@ func (e *Env) compile(x ast.Expr, want *Sort) T {
 		case KSlice:
 			el, elT := g.elemOf(base.GoT)
 			if el == nil {
-				return e.fail("index of slice with unknown element type: %s", exprString(v.X))
+				// a ghost slice value without a Go type: a byte slice
+				el, elT = SBV8, types.Typ[types.Uint8]
 			}
 			h := g.stGet(e.st, g.elemHeapName(elT), g.elemHeapSort(el))
 			return T{S: app("select", app("select", h, app("s_obj", base.S)), app("+", app("s_off", base.S), idx.S)), So: el, GoT: elT}
